@@ -113,6 +113,18 @@ func runOne(spec RunSpec) *RunResult {
 		}
 	}
 	res.OpsDone += w.Probes["ops.done"]
+	// C12: nobody wrote into a frame after handing it back to the pool
+	if !out.Aborted {
+		for _, n := range w.Nodes {
+			if n.Pool == nil {
+				continue
+			}
+			w.eval("C12.poison-intact")
+			for _, d := range n.Pool.WrittenAfterRelease() {
+				res.Violations = append(res.Violations, Violation{Prop: "C12", Rule: "write-after-release", Detail: d})
+			}
+		}
+	}
 	// C11 (second half): after every channel is closed no goroutine started by
 	// the library remains. Evaluated only when the scenario closed everything
 	// and the run was not aborted.
